@@ -268,10 +268,28 @@ def run(fx, tier):
                 rets = [x for x in tb.elems if isinstance(x, dict) and x.get('k') == 'ret']
                 if not rets:
                     continue
-                r = f.resolve(rets[0])
+                r = expand(f, f.resolve(rets[0]))
+                # a returned local stands for its initialiser when it is never modified afterwards
+                D0 = defs_of(f)
+
+                def unlocal(n, depth=0):
+                    if isinstance(n, dict):
+                        if n.get('k') == 'ref' and n.get('dk') == 'local' and depth < 6 and not D0.assigned.get(n.get('d')):
+                            init = D0.decl.get(n.get('d'))
+                            if init is not None:
+                                return unlocal(expand(f, init), depth + 1)
+                        return {k: (unlocal(v_, depth + 1) if k != 'fn' else v_) for k, v_ in n.items()}
+                    if isinstance(n, list):
+                        return [unlocal(i_, depth + 1) for i_ in n]
+                    return n
+                r = unlocal(r)
+                mutated = any(callee_name(cc) not in ('', None) and 'obj' in cc and isinstance(strip(cc['obj']), dict)
+                              and strip(cc['obj']).get('dk') == 'local' and strip(cc['obj']).get('d') in D0.decl
+                              and not str(callee_name(cc)).startswith('operator')
+                              for bb_, _, _, cc in f.calls() if bb_ == blk.succ[0])
                 dflt = not contains(r, lambda n: n.get('k') == 'ref' and n.get('dk') in ('param', 'local')) \
                     and not contains(r, lambda n: n.get('k') == 'ref' and n.get('n') == 'nullopt') \
-                    and contains(r, lambda n: n.get('k') in ('init', 'ctor'))
+                    and contains(r, lambda n: n.get('k') in ('init', 'ctor')) and not mutated
                 if truth[0] and not any(truth[1:]) and dflt:
                     ok = True
                 else:
